@@ -127,9 +127,13 @@ def _mk(gr, gname, rel, root, max_nodes, max_nesting):
     return g, nodes
 
 
-def reference(edges, root, inverse, max_nodes, max_nesting):
-    """documented behaviour on a concrete relation: (added nodes, emitted edges (tail, head))"""
-    nbr = lambda x: sorted({(t if inverse else h) for (t, h) in edges if (h if inverse else t) == x})
+def reference(edges, root, inverse, max_nodes, max_nesting, universe=None):
+    """documented behaviour on a relation: (added nodes, emitted edges (tail, head)).  `edges` is a list of pairs or a
+    membership function has(x, y) (then only the edges of the nodes the expansion reaches are ever asked for)"""
+    if callable(edges):
+        nbr = lambda x: [y for y in universe if (edges(y, x) if inverse else edges(x, y))]
+    else:
+        nbr = lambda x: sorted({(t if inverse else h) for (t, h) in edges if (h if inverse else t) == x})
     added = {root}
     out_edges = []
     level = [root]
@@ -201,15 +205,17 @@ def _graph_ob(gname):
             added = sorted(n.ident for n in g.added)
             if len(added) > 1:
                 E.reachable("grew")
-            # all edges of expanded nodes are decided on this path; decide the rest lazily inside `reference`
-            edges = lambda: [(x, y) for x in NODES[:nn] for y in NODES[:nn] if rel.has(x, y)]
-            es = edges()
+            # the edges of the expanded nodes are decided on this path; the reference asks lazily for those it needs (edges
+            # of nodes neither the code nor the documented expansion reaches stay undecided: they cannot matter)
             # documented outcome for every value of the two limits consistent with this path:
             # enumerate the finitely many distinct behaviours (limits only matter up to nn+1 / nn+1)
             for cmn in range(1, nn + 2):
                 for cmd in range(0, nn + 2):
                     cond = z3.And((mn.t == cmn) if cmn <= nn else (mn.t >= cmn), (md.t == cmd) if cmd <= nn else (md.t >= cmd))
-                    wn, we = reference(es, "a", inverse, cmn if cmn <= nn else 10 ** 6, cmd if cmd <= nn else 10 ** 6)
+                    feasible, _m = E.e._check([cond])
+                    if not feasible:
+                        continue  # these limit values contradict the branches taken on this path
+                    wn, we = reference(rel.has, "a", inverse, cmn if cmn <= nn else 10 ** 6, cmd if cmd <= nn else 10 ** 6, NODES[:nn])
                     ok = added == wn and sorted(g.dot.edges) == sorted(we)
                     E.require(sym.mk_bool(z3.Implies(cond, z3.BoolVal(ok))), "graph content differs from the documented hop expansion")
             dangling = [e for e in g.dot.edges if e[0] not in added or e[1] not in added]
